@@ -768,7 +768,7 @@ fn block_one_int<const ID: u64, const FIRST: u8>() {
     }
 }
 
-/// two integer parameters: ids, encoding lengths and first value bytes concrete, the rest of the values symbolic
+/// two DIFFERENT integer parameters: ids, encoding lengths and first value bytes concrete, the rest symbolic
 fn block_two_ints<const ID1: u64, const F1: u8, const ID2: u64, const F2: u8>() {
     let (x1, l1) = any_value_with_first_byte::<F1>();
     let (x2, l2) = any_value_with_first_byte::<F2>();
@@ -779,12 +779,8 @@ fn block_two_ints<const ID1: u64, const F1: u8, const ID2: u64, const F2: u8>() 
     pin_first_value_byte::<F2, 40>(&mut buf, n1 + n2 - l2);
     let rc = ClientTransportParameters::decode_parameters(DecoderBuffer::new(&buf[..n1 + n2]));
     kani::cover!(rc.is_err(), "reach:rejected");
-    kani::cover!(true, "reach:end");
-    if ID1 == ID2 {
-        // 7.4: "An endpoint MUST NOT send a parameter more than once ... SHOULD treat receipt of duplicate
-        // transport parameters as a connection error of type TRANSPORT_PARAMETER_ERROR"
-        assert!(rc.is_err(), "C14/decode_parameters/duplicate_parameter_rejected");
-    } else if !known_deviation(ID1, x1, l1) && !known_deviation(ID2, x2, l2) {
+    kani::cover!(rc.is_ok(), "reach:accepted");
+    if !known_deviation(ID1, x1, l1) && !known_deviation(ID2, x2, l2) {
         assert!(
             rc.is_ok() == (tp_int_valid(int_row(ID1), x1) && tp_int_valid(int_row(ID2), x2)),
             "C14/decode_parameters/block_accepted_iff_every_value_valid"
@@ -794,6 +790,26 @@ fn block_two_ints<const ID1: u64, const F1: u8, const ID2: u64, const F2: u8>() 
         assert!(int_field(&p, ID1) == x1 && int_field(&p, ID2) == x2, "C14/decode_parameters/both_declared_values_applied");
         assert!(others_default(&p, ID1, ID2), "C14/decode_parameters/absent_parameters_get_rfc_defaults");
     }
+}
+
+/// the SAME integer parameter twice (values and encodings may differ)
+fn block_duplicate<const ID: u64, const F1: u8, const F2: u8>() {
+    let (x1, l1) = any_value_with_first_byte::<F1>();
+    let (x2, l2) = any_value_with_first_byte::<F2>();
+    let mut buf = [0u8; 40];
+    let n1 = tp_put_int_param(&mut buf, 0, ID, x1, l1);
+    pin_first_value_byte::<F1, 40>(&mut buf, n1 - l1);
+    let n2 = tp_put_int_param(&mut buf, n1, ID, x2, l2);
+    pin_first_value_byte::<F2, 40>(&mut buf, n1 + n2 - l2);
+    let rc = ClientTransportParameters::decode_parameters(DecoderBuffer::new(&buf[..n1 + n2]));
+    let rs = ServerTransportParameters::decode_parameters(DecoderBuffer::new(&buf[..n1 + n2]));
+    kani::cover!(tp_int_valid(int_row(ID), x1) && tp_int_valid(int_row(ID), x2), "reach:both_values_valid");
+    kani::cover!(x1 == x2, "reach:same_value_twice");
+    // 7.4: "An endpoint MUST NOT send a parameter more than once in a given transport parameters extension.  An
+    // endpoint SHOULD treat receipt of duplicate transport parameters as a connection error of type
+    // TRANSPORT_PARAMETER_ERROR."
+    assert!(rc.is_err(), "C14/decode_parameters/duplicate_parameter_rejected");
+    assert!(rs.is_err(), "C14/decode_parameters/duplicate_parameter_rejected_from_server");
 }
 
 //@ harness props=C14 tier=quick level=bounded timeout=300 bound="1 parameter per block; id, varint length and first value byte (0x80) concrete, remaining value bytes symbolic"
@@ -1036,14 +1052,6 @@ fn vq_c14_tp_block_one_ack_delay_exponent_first_14() {
     block_one_int::<0x0a, 0x14>();
 }
 
-//@ harness props=C14 tier=thorough level=bounded timeout=900 bound="1 parameter per block; id, varint length and first value byte (0x15) concrete, remaining value bytes symbolic"
-//@ fn TransportParameters::decode_parameters
-#[kani::proof]
-#[kani::unwind(14)] // others_default: 12 ids; 2u64.pow(62): 6
-fn vq_c14_tp_block_one_ack_delay_exponent_first_15() {
-    block_one_int::<0x0a, 0x15>();
-}
-
 //@ harness props=C14 tier=quick level=bounded timeout=300 bound="2 parameters per block; ids, varint lengths and first value bytes (0x80, 0x40) concrete, remaining value bytes symbolic"
 //@ fn TransportParameters::decode_parameters
 #[kani::proof]
@@ -1057,7 +1065,7 @@ fn vq_c14_tp_block_two_max_ack_delay_80_active_connection_id_limit_40() {
 #[kani::proof]
 #[kani::unwind(14)] // others_default: 12 ids; 2u64.pow(62): 6
 fn vq_c14_tp_block_two_max_ack_delay_80_max_ack_delay_40() {
-    block_two_ints::<0x0b, 0x80, 0x0b, 0x40>();
+    block_duplicate::<0x0b, 0x80, 0x40>();
 }
 
 //@ harness props=C14 tier=thorough level=bounded timeout=900 bound="2 parameters per block; ids, varint lengths and first value bytes (0x40, 0x80) concrete, remaining value bytes symbolic"
@@ -1097,7 +1105,7 @@ fn vq_c14_tp_block_two_max_idle_timeout_c0_max_datagram_frame_size_80() {
 #[kani::proof]
 #[kani::unwind(14)] // others_default: 12 ids; 2u64.pow(62): 6
 fn vq_c14_tp_block_two_active_connection_id_limit_40_active_connection_id_limit_80() {
-    block_two_ints::<0x0e, 0x40, 0x0e, 0x80>();
+    block_duplicate::<0x0e, 0x40, 0x80>();
 }
 
 //@ harness props=C14 tier=thorough level=bounded timeout=900 bound="2 parameters per block; ids, varint lengths and first value bytes (0x80, 0x80) concrete, remaining value bytes symbolic"
@@ -1105,15 +1113,15 @@ fn vq_c14_tp_block_two_active_connection_id_limit_40_active_connection_id_limit_
 #[kani::proof]
 #[kani::unwind(14)] // others_default: 12 ids; 2u64.pow(62): 6
 fn vq_c14_tp_block_two_initial_max_data_80_initial_max_data_80() {
-    block_two_ints::<0x04, 0x80, 0x04, 0x80>();
+    block_duplicate::<0x04, 0x80, 0x80>();
 }
 
-//@ harness props=C14 tier=thorough level=bounded timeout=900 bound="2 parameters per block; ids, varint lengths and first value bytes (0x03, 0x04) concrete, remaining value bytes symbolic"
+//@ harness props=C14 tier=thorough level=bounded timeout=900 bound="2 parameters per block; ids, varint lengths and first value bytes (0x03, 0x03) concrete, remaining value bytes symbolic"
 //@ fn TransportParameters::decode_parameters
 #[kani::proof]
 #[kani::unwind(14)] // others_default: 12 ids; 2u64.pow(62): 6
-fn vq_c14_tp_block_two_ack_delay_exponent_03_ack_delay_exponent_04() {
-    block_two_ints::<0x0a, 0x03, 0x0a, 0x04>();
+fn vq_c14_tp_block_two_ack_delay_exponent_03_ack_delay_exponent_03() {
+    block_duplicate::<0x0a, 0x03, 0x03>();
 }
 
 //@ harness props=C14 tier=thorough level=bounded timeout=900 bound="2 parameters per block; ids, varint lengths and first value bytes (0x80, 0x80) concrete, remaining value bytes symbolic"
@@ -1121,7 +1129,7 @@ fn vq_c14_tp_block_two_ack_delay_exponent_03_ack_delay_exponent_04() {
 #[kani::proof]
 #[kani::unwind(14)] // others_default: 12 ids; 2u64.pow(62): 6
 fn vq_c14_tp_block_two_max_udp_payload_size_80_max_udp_payload_size_80() {
-    block_two_ints::<0x03, 0x80, 0x03, 0x80>();
+    block_duplicate::<0x03, 0x80, 0x80>();
 }
 
 //@ harness props=C14 tier=thorough level=bounded timeout=900 bound="2 parameters per block; ids, varint lengths and first value bytes (0x80, 0x80) concrete, remaining value bytes symbolic"
@@ -1137,7 +1145,7 @@ fn vq_c14_tp_block_two_initial_max_stream_data_bidi_local_80_initial_max_stream_
 #[kani::proof]
 #[kani::unwind(14)] // others_default: 12 ids; 2u64.pow(62): 6
 fn vq_c14_tp_block_two_initial_max_stream_data_uni_40_initial_max_stream_data_uni_40() {
-    block_two_ints::<0x07, 0x40, 0x07, 0x40>();
+    block_duplicate::<0x07, 0x40, 0x40>();
 }
 
 //@ harness props=C14 tier=thorough level=bounded timeout=900 bound="2 parameters per block; ids, varint lengths and first value bytes (0x40, 0x40) concrete, remaining value bytes symbolic"
@@ -1145,7 +1153,7 @@ fn vq_c14_tp_block_two_initial_max_stream_data_uni_40_initial_max_stream_data_un
 #[kani::proof]
 #[kani::unwind(14)] // others_default: 12 ids; 2u64.pow(62): 6
 fn vq_c14_tp_block_two_initial_max_streams_bidi_40_initial_max_streams_bidi_40() {
-    block_two_ints::<0x08, 0x40, 0x08, 0x40>();
+    block_duplicate::<0x08, 0x40, 0x40>();
 }
 
 //@ harness props=C14 tier=thorough level=bounded timeout=900 bound="2 parameters per block; ids, varint lengths and first value bytes (0x40, 0x40) concrete, remaining value bytes symbolic"
@@ -1153,7 +1161,7 @@ fn vq_c14_tp_block_two_initial_max_streams_bidi_40_initial_max_streams_bidi_40()
 #[kani::proof]
 #[kani::unwind(14)] // others_default: 12 ids; 2u64.pow(62): 6
 fn vq_c14_tp_block_two_initial_max_streams_uni_40_initial_max_streams_uni_40() {
-    block_two_ints::<0x09, 0x40, 0x09, 0x40>();
+    block_duplicate::<0x09, 0x40, 0x40>();
 }
 
 //@ harness props=C14 tier=thorough level=bounded timeout=900 bound="2 parameters per block; ids, varint lengths and first value bytes (0x40, 0x40) concrete, remaining value bytes symbolic"
@@ -1161,7 +1169,7 @@ fn vq_c14_tp_block_two_initial_max_streams_uni_40_initial_max_streams_uni_40() {
 #[kani::proof]
 #[kani::unwind(14)] // others_default: 12 ids; 2u64.pow(62): 6
 fn vq_c14_tp_block_two_max_idle_timeout_40_max_idle_timeout_40() {
-    block_two_ints::<0x01, 0x40, 0x01, 0x40>();
+    block_duplicate::<0x01, 0x40, 0x40>();
 }
 
 //@ harness props=C14 tier=thorough level=bounded timeout=900 bound="2 parameters per block; ids, varint lengths and first value bytes (0x40, 0x40) concrete, remaining value bytes symbolic"
@@ -1169,7 +1177,7 @@ fn vq_c14_tp_block_two_max_idle_timeout_40_max_idle_timeout_40() {
 #[kani::proof]
 #[kani::unwind(14)] // others_default: 12 ids; 2u64.pow(62): 6
 fn vq_c14_tp_block_two_max_datagram_frame_size_40_max_datagram_frame_size_40() {
-    block_two_ints::<0x20, 0x40, 0x20, 0x40>();
+    block_duplicate::<0x20, 0x40, 0x40>();
 }
 
 //@ harness props=C14 tier=thorough level=bounded timeout=900 bound="2 parameters per block; ids, varint lengths and first value bytes (0x40, 0x40) concrete, remaining value bytes symbolic"
@@ -1177,7 +1185,7 @@ fn vq_c14_tp_block_two_max_datagram_frame_size_40_max_datagram_frame_size_40() {
 #[kani::proof]
 #[kani::unwind(14)] // others_default: 12 ids; 2u64.pow(62): 6
 fn vq_c14_tp_block_two_initial_max_stream_data_bidi_local_40_initial_max_stream_data_bidi_local_40() {
-    block_two_ints::<0x05, 0x40, 0x05, 0x40>();
+    block_duplicate::<0x05, 0x40, 0x40>();
 }
 
 //@ harness props=C14 tier=thorough level=bounded timeout=900 bound="2 parameters per block; ids, varint lengths and first value bytes (0x40, 0x40) concrete, remaining value bytes symbolic"
@@ -1185,7 +1193,7 @@ fn vq_c14_tp_block_two_initial_max_stream_data_bidi_local_40_initial_max_stream_
 #[kani::proof]
 #[kani::unwind(14)] // others_default: 12 ids; 2u64.pow(62): 6
 fn vq_c14_tp_block_two_initial_max_stream_data_bidi_remote_40_initial_max_stream_data_bidi_remote_40() {
-    block_two_ints::<0x06, 0x40, 0x06, 0x40>();
+    block_duplicate::<0x06, 0x40, 0x40>();
 }
 
 //@ harness props=C14 tier=quick level=bounded timeout=300 bound="empty block"
